@@ -63,6 +63,42 @@ func VerifyFunction(p *Prog, fn *ssa.Function, c *Contract) (vc *VC) {
 		}
 		f.freeVars = append(f.freeVars, v)
 	}
+	// captured variables that provably hold one known function (local helper closures)
+	if fn.Parent() != nil {
+		for _, b := range fn.Parent().Blocks {
+			for _, in := range b.Instrs {
+				mc, ok := in.(*ssa.MakeClosure)
+				if !ok || mc.Fn != fn {
+					continue
+				}
+				for i, bnd := range mc.Bindings {
+					al, ok := bnd.(*ssa.Alloc)
+					if !ok || i >= len(f.freeVars) {
+						continue
+					}
+					var stored *ssa.Function
+					nStores := 0
+					for _, ref := range *al.Referrers() {
+						if st, ok := ref.(*ssa.Store); ok && st.Addr == al {
+							nStores++
+							switch v := st.Val.(type) {
+							case *ssa.MakeClosure:
+								stored = v.Fn.(*ssa.Function)
+							case *ssa.Function:
+								stored = v
+							}
+						}
+					}
+					if nStores == 1 && stored != nil && !vc.cellWrittenElsewhere(al, fn.Parent()) {
+						if vc.cellFns == nil {
+							vc.cellFns = map[string]*ssa.Function{}
+						}
+						vc.cellFns[f.freeVars[i].T.S] = stored
+					}
+				}
+			}
+		}
+	}
 	// captured cells are pairwise distinct
 	for i := range f.freeVars {
 		for j := i + 1; j < len(f.freeVars); j++ {
@@ -148,6 +184,8 @@ func VerifyFunction(p *Prog, fn *ssa.Function, c *Contract) (vc *VC) {
 		sc := vc.entryScopeF(f)
 		sc.st = out
 		sc.old = vc.entry
+		sc.frame = f
+		sc.paramsFirst = true
 		sig := fn.Signature
 		for i := 0; i < sig.Results().Len() && i < len(results); i++ {
 			rv := sig.Results().At(i)
@@ -293,4 +331,30 @@ func (vc *VC) alsoScope(f *Frame, ft *Contract, results []Value) *Scope {
 		}
 	}
 	return sc
+}
+
+// cellWrittenElsewhere: is the captured variable assigned inside any closure?
+func (vc *VC) cellWrittenElsewhere(al *ssa.Alloc, parent *ssa.Function) bool {
+	for _, anon := range parent.AnonFuncs {
+		for i, fv := range anon.FreeVars {
+			_ = i
+			// find whether this free var corresponds to al
+			for _, b := range parent.Blocks {
+				for _, in := range b.Instrs {
+					if mc, ok := in.(*ssa.MakeClosure); ok && mc.Fn == anon {
+						for k, bnd := range mc.Bindings {
+							if bnd == al && anon.FreeVars[k] == fv {
+								for _, ref := range *fv.Referrers() {
+									if st, ok := ref.(*ssa.Store); ok && st.Addr == fv {
+										return true
+									}
+								}
+							}
+						}
+					}
+				}
+			}
+		}
+	}
+	return false
 }
